@@ -174,6 +174,111 @@ def parser_tie(res, seed, n, dist):
     res.coverage['parser_types_compared'] = len([1 for n_, _, _ in types if n_ in impl and n_ in model])
     return len(types) + len(items)
 
+def derive_items(src):
+    """the items of a declaration source that carry #[derive(.. Difference)]: from the derive line to the line before the next impl / test fn"""
+    items, cur = [], None
+    for l in src.split('\n'):
+        if l.startswith('#[derive(') and 'Difference' in l:
+            if cur is not None: items.append('\n'.join(cur))
+            cur = [l]
+        elif cur is not None and (l.startswith(('impl', 'pub fn test', '#[cfg(feature = "ns")] #[allow')) or (l.startswith('#[') and 'Difference' not in l and not l.startswith(('#[difference', '#[cfg_attr')))):
+            items.append('\n'.join(cur)); cur = None
+        elif cur is not None: cur.append(l)
+    if cur is not None: items.append('\n'.join(cur))
+    return items
+
+def canon_header(text):
+    """bound lists come out of a HashSet in the implementation: the `+`-separated bounds of every where predicate are sorted on both sides"""
+    toks = text.split()
+    # token units: 'I x' / 'P c' / 'L v' are two words, group brackets one
+    units, i = [], 0
+    while i < len(toks):
+        if toks[i] in ('I', 'P', 'L') and i + 1 < len(toks): units.append((toks[i], toks[i + 1])); i += 2
+        else: units.append((toks[i],)); i += 1
+    def split(us, sep):
+        parts, cur, depth, angle = [], [], 0, 0
+        for k, u in enumerate(us):
+            if len(u) == 1: depth += 1 if u[0].startswith('G') else -1
+            elif u == ('P', '<'): angle += 1
+            elif u == ('P', '>'): angle -= 1
+            if u == sep and depth == 0 and angle == 0: parts.append(cur); cur = []
+            else: cur.append(u)
+        parts.append(cur)
+        return parts
+    w = next((k for k, u in enumerate(units) if u == ('I', 'where')), None)
+    if w is None: return ' '.join(' '.join(u) for u in units)
+    head, clause = units[:w + 1], units[w + 1:]
+    preds = []
+    for pr in split(clause, ('P', ',')):
+        c = next((k for k, u in enumerate(pr) if u == ('P', ':') and (k == 0 or pr[k - 1] != ('P', ':')) and (k + 1 >= len(pr) or pr[k + 1] != ('P', ':'))), None)
+        if c is None: preds.append(pr); continue
+        bounds = sorted(split(pr[c + 1:], ('P', '+')))
+        flat = []
+        for n, b in enumerate(bounds): flat += ([('P', '+')] if n else []) + b
+        preds.append(pr[:c + 1] + flat)
+    out = list(head)
+    for n, pr in enumerate(preds): out += ([('P', ',')] if n else []) + pr
+    return ' '.join(' '.join(u) for u in out)
+
+HEADER_CFGS = [('gs', ['generated_setters']), ('all', ['generated_setters', 'debug_diffs', 'nanoserde', 'serde']), ('dbg', ['generated_setters', 'debug_diffs']),
+               ('ns', ['generated_setters', 'nanoserde']), ('sd', ['generated_setters', 'serde'])]
+
+def header_tie(res, decls, cfgs, dist):
+    """the item headers of the REAL expansion (pd runs derive_struct_diff_struct / derive_struct_diff_enum of /repo on every supported
+    declaration and cuts the headers out of the token stream) against the extracted Coq model coq/parse/ParseHeader.v, per feature set"""
+    items = []                # (declaration, its derive items together: they refer to one another)
+    for n, src, _ in decls:
+        its = derive_items(src)
+        if its: items.append((n, '\n'.join(its), len(its)))
+    nitems = sum(k for _, _, k in items)
+    drv = build_ocaml(res, 'parse', 'Parse')
+    ncmp = 0
+    for tag, feats in cfgs:
+        crate = os.path.join(WORK, 'pdhdr_' + tag)
+        put(os.path.join(crate, 'Cargo.toml'), f'[package]\nname = "pdhdr_{tag}"\nversion = "0.0.0"\nedition = "2021"\n[workspace]\n[dependencies]\npd = {{ path = "/verif/harness/pd", default-features = false, features = {json.dumps(feats)} }}\n')
+        put(os.path.join(crate, 'src', 'support.rs'), D.SUPPORT)
+        # one module per item: the items of one declaration source may share names with those of another
+        mods = ''.join(f"#[allow(dead_code, unused_imports, non_camel_case_types, non_snake_case, unexpected_cfgs)]\npub mod h{n} {{\n    use crate::support::*;\n    use pd::DumpParse as Difference;\n"
+                       + '\n'.join('    ' + l if l else '' for l in it.split('\n')) + "\n}\n" for n, it, _ in items)
+        put(os.path.join(crate, 'src', 'lib.rs'), "#![allow(unexpected_cfgs)]\npub mod support;\n" + mods)
+        dump = os.path.join(WORK, f'pdhdr_{tag}.dump')
+        if os.path.exists(dump): os.remove(dump)
+        os.utime(os.path.join(crate, 'src', 'lib.rs'))
+        env = dict(ENV, PD_DUMP=dump, PD_HEADERS='1')
+        with lock('cargo_' + sha(TARGET)):
+            rc, out = sh(['cargo', 'check', '--offline', '--quiet'], cwd=crate, env=env, timeout=900)
+        if not os.path.exists(dump) or rc != 0:
+            res.add_broken('correspondence', f'header harness (pd with features {feats}) no longer builds against /repo/derive/src', ' | '.join(l for l in out.splitlines() if l.startswith('error'))[:400])
+            continue
+        if not drv: continue
+        impl = {}
+        for l in open(dump):
+            m = re.match(r'ITEM (\S+) (HDR\w*) ?(.*)', l.strip())
+            if m: impl.setdefault(m.group(1), {})[m.group(2)] = m.group(3).strip()
+        rc, lines = run_lines([drv, dump], timeout=600)
+        model = {}
+        for l in lines:
+            m = re.match(r'ITEM (\S+) (HDR\w*) ?(.*)', l)
+            if m: model.setdefault(m.group(1), {})[m.group(2)] = m.group(3).strip()
+        if len(impl) < nitems * 9 // 10:
+            res.add_broken('correspondence', f'header harness: only {len(impl)} of {nitems} derive items were expanded by pd (features {feats})', '')
+        nd = 0
+        for name, hs in impl.items():
+            ms = model.get(name)
+            if ms is None: continue
+            for k in sorted(set(hs) | set(ms)):
+                ncmp += 1
+                a, b = hs.get(k), ms.get(k)
+                if (a is None or b is None or canon_header(a) != canon_header(b)) and nd == 0:
+                    nd += 1
+                    ca, cb = canon_header(a or ''), canon_header(b or '')
+                    j = next((q for q in range(min(len(ca), len(cb))) if ca[q] != cb[q]), 0)
+                    res.add_broken('correspondence', 'Coq model of the item headers of the expansion (coq/parse/ParseHeader.v: used_generics, Generic::full_with_const, the generics / where-clause templates) differs from derive/src/difference.rs',
+                                   f"features {feats}, item {name} {k}: model ...{cb[max(0, j - 80):j + 160]} | impl ...{ca[max(0, j - 80):j + 160]}")
+        dist['headers_compared_' + tag] = sum(len(v) for v in impl.values())
+    res.coverage['item_headers_compared'] = ncmp
+    return ncmp
+
 def main():
     a = std_args()
     res = Result(PROP, a.tier, a.seed)
@@ -238,6 +343,9 @@ def main():
             dist['codec_generic_declarations_run'] = dist.get('codec_generic_declarations_run', 0) + 1
             if p[1] != 'OK':
                 res.oracle_fail.append({'group': 'declaration', 'case': dict((n, s_) for n, s_, _ in cd).get(p[0], p[0]), 'what': f"ORACLE-FAIL generic declaration {p[0]} ({cname}): {p[1]} {p[2][:300] if len(p) > 2 else ''}", 'signature': f"round trip / frame fails: {p[1]}"})
+    # the item headers of the expansion of every declaration above, per feature set of the derive crate
+    k = (a.seed or 0) % 3
+    header_tie(res, decls + cd, HEADER_CFGS if a.tier == 'thorough' else [HEADER_CFGS[0], HEADER_CFGS[1], HEADER_CFGS[2 + k]], dist)
     # known-bad constructs, each on its own
     def try_known(item):
         kid, (desc, src) = item
